@@ -61,6 +61,8 @@ const (
 	GShareFraction    = "g:withdraw_all_but_a_fraction_of_a_share_after_value_was_concentrated"
 	GMultiUnbondSlash = "g:several_delegators_undelegate_from_one_validator_then_it_is_slashed"
 	GDeletePending    = "g:asset_drained_and_deleted_while_its_unbondings_are_pending_then_slash"
+	GReimportWhileOut = "g:export_import_while_a_validator_with_module_stake_is_out_and_emptied"
+	GRecreateAsset    = "g:asset_with_reward_history_drained_deleted_and_whitelisted_again_with_a_warm_up"
 )
 
 const (
@@ -735,6 +737,90 @@ func (g *Gen) Step() {
 			p := new(big.Int).Quo(x.Post().Vals[a].Tokens.BigInt(), big.NewInt(1_000_000)).Int64()
 			x.Apply(Op{K: KSlash, V: a, Frac: g.frac(), Power: p, Age: int64(g.intn("age", 2))})
 		}
+	case GRecreateAsset:
+		// an asset that has earned rewards (indices on its validators) is left by everybody, deleted
+		// and whitelisted again with a warm-up; new positions are opened during the warm-up on the
+		// same validators; after the warm-up they claim
+		ds := g.assetDenoms()
+		if len(ds) == 0 {
+			return
+		}
+		dn := ds[g.intn("ra-denom", len(ds))]
+		var holders []int
+		for _, d := range x.Post().DelsOfAsset(dn) {
+			if d.V >= 0 {
+				holders = append(holders, d.V)
+			}
+		}
+		if len(holders) == 0 {
+			v := g.intn("v", nv)
+			x.Apply(Op{K: KDelegate, D: g.del(), V: v, Denom: dn, Amt: g.freshAmount("amt")})
+			holders = append(holders, v)
+		}
+		x.Apply(Op{K: KBlock, Dt: sec, Fees: "1000000" + FeeDenom})
+		x.Apply(Op{K: KBlock, Dt: sec, Fees: g.fees()})
+		x.Apply(Op{K: KClaimAll})
+		g.drain(dn)
+		x.Apply(Op{K: KDelete, Denom: dn, Signer: "auth"})
+		cur := x.Post()
+		delay := g.pickI("ra-delay", []int64{2 * sec, 10 * sec, 3600 * sec})
+		x.Apply(Op{K: KParams, Signer: "auth", Delay: delay, Interval: int64(cur.Params.TakeRateClaimInterval)})
+		cop := g.createOp(dn, "auth")
+		cop.Legacy = false
+		x.Apply(cop)
+		for i, n := 0, 1+g.intn("ra-n", 2); i < n; i++ {
+			x.Apply(Op{K: KDelegate, D: g.del(), V: holders[g.intn("ra-holder", len(holders))], Denom: dn, Amt: g.freshAmount("amt")})
+		}
+		x.Apply(Op{K: KBlock, Dt: delay + 1, Fees: g.fees()})
+		if g.pct("ra-extra-block", 50) {
+			x.Apply(Op{K: KBlock, Dt: sec, Fees: g.fees()})
+		}
+		for _, d := range x.Post().DelsOfAsset(dn) {
+			if d.D >= 0 && d.D != 100 && d.V >= 0 {
+				x.Apply(Op{K: KClaim, D: d.D, V: d.V, Denom: dn})
+			}
+		}
+	case GReimportWhileOut:
+		// a bonded validator carrying alliance-minted stake is jailed; while it is out every alliance
+		// position on it leaves; the module state goes through export/import; the validator comes back
+		var cands []int
+		for i, v := range s.Vals {
+			if v.HasModDel && v.Status == 3 && !v.Jailed {
+				cands = append(cands, i)
+			}
+		}
+		if len(cands) == 0 {
+			x.Apply(Op{K: KDelegate, D: g.del(), V: g.intn("v", nv), Denom: g.anyDenom("denom"), Amt: g.freshAmount("amt")})
+			x.Apply(Op{K: KBlock, Dt: g.dt(), Fees: g.fees()})
+			return
+		}
+		v := cands[g.intn("ro-v", len(cands))]
+		x.Apply(Op{K: KJail, V: v})
+		x.Apply(Op{K: KBlock, Dt: sec, Fees: g.fees()})
+		for i := 0; i < 8; i++ {
+			cur := x.Post()
+			var pos *DelSnap
+			for j := range cur.Dels {
+				if cur.Dels[j].V == v && cur.Dels[j].D >= 0 && cur.Dels[j].D != 100 && cur.Reported(cur.Dels[j]).Sign() > 0 {
+					pos = &cur.Dels[j]
+					break
+				}
+			}
+			if pos == nil {
+				break
+			}
+			if r := x.Apply(Op{K: KUndelegate, D: pos.D, V: v, Denom: pos.Denom, Amt: cur.Reported(*pos).String()}); !r.OK {
+				break
+			}
+		}
+		x.Apply(Op{K: KBlock, Dt: sec, Fees: g.fees()})
+		x.Apply(Op{K: KReimport})
+		if g.pct("ro-block", 50) {
+			x.Apply(Op{K: KBlock, Dt: sec, Fees: g.fees()})
+		}
+		x.Apply(Op{K: KUnjail, V: v})
+		x.Apply(Op{K: KBlock, Dt: sec, Fees: g.fees()})
+		x.Apply(Op{K: KBlock, Dt: sec})
 	case GDeletePending:
 		// everybody leaves an asset, governance deletes it while the unbondings are still pending,
 		// a validator they came from is slashed, then the entries mature
